@@ -383,6 +383,21 @@ class Evaluator:
                 e2 = dict(env)
                 e2[st.value.func.value.id] = SortedTup(env[st.value.func.value.id].items)
                 return [(conds, e2, None)]
+            # append to a local list literal: the list becomes the longer list (functional update; inside an effectful
+            # loop this makes the list a loop-carried local, so a later loop over it is tied to what was appended)
+            if isinstance(st.value, ast.Call) and isinstance(st.value.func, ast.Attribute) and st.value.func.attr == "append" \
+                    and len(st.value.args) == 1 and not st.value.keywords and isinstance(st.value.func.value, ast.Name) \
+                    and type(env.get(st.value.func.value.id)) is Tup:
+                lname = st.value.func.value.id
+                cur = env[lname]
+                if any(v is cur for k, v in env.items() if k != lname):
+                    raise Unreadable("append to an aliased list")
+                out = []
+                for c2, v in self.ev(st.value.args[0], env, ctx):
+                    e2 = dict(env)
+                    e2[lname] = Tup(list(cur.items) + [v])
+                    out.append((conds | c2, e2, None))
+                return out
             # side-effect-free expression statements (calls to require are handled)
             if isinstance(st.value, ast.Call):
                 ec = self._effect_call(st.value, env, ctx)
@@ -749,11 +764,14 @@ class Evaluator:
                     if nm in env and not _same_value(env[nm], v):
                         fx = fx + (("local", as_term(env[nm]), as_term(v)),)
                         changed.setdefault(nm, set()).add((frozenset(c), as_term(v)))
-                rows.append((frozenset(c), fx, repr(r) if r is not None else None))
+                # a trailing `continue` is the same as falling off the end of the body
+                rows.append((frozenset(c), fx, repr(r) if r is not None and not (isinstance(r, Lit) and r.v == "<continue>") else None))
+            # canonical in the branching structure: rows with the same effects merge over complementary guards
+            rows = [(c, p[0], p[1]) for c, p in _merge_rows([(c, (fx, r)) for c, fx, r in rows])]
             block = frozenset(rows)
             e2 = dict(env)
             for nm, vals in changed.items():
-                e2[nm] = Rat.atom(("afterloop", it_term, as_term(env[nm]), frozenset(vals)))
+                e2[nm] = Rat.atom(("afterloop", it_term, as_term(env[nm]), frozenset(_merge_rows(sorted(vals, key=repr)))))
             self._fx(e2, ("foreach", it_term, block))
             return [(conds, e2, None)]
         body = list(st.body)
@@ -816,6 +834,15 @@ class Evaluator:
                         names.append(nn.id)
             elif isinstance(b, ast.Expr) and isinstance(b.value, ast.Constant):
                 continue
+            elif isinstance(b, ast.Expr) and isinstance(b.value, ast.Call) and isinstance(b.value.func, ast.Attribute) \
+                    and b.value.func.attr == "append" and len(b.value.args) == 1 and isinstance(b.value.func.value, ast.Name) \
+                    and b.value.func.value.id not in names and type(e2.get(b.value.func.value.id)) is Tup \
+                    and not e2[b.value.func.value.id].items:
+                # `out = []; for x in it: [if c(x):] out.append(f(x))`  ==  [f(x) for x in it if c(x)]
+                vs = self.ev(b.value.args[0], lv_env, ctx)
+                if len(vs) != 1 or vs[0][0]:
+                    raise Unreadable("piecewise appended element")
+                e2[b.value.func.value.id] = Seq(it_term, vs[0][1], filt)
             else:
                 raise Unreadable(f"loop body statement {ast.unparse(b)[:50]}")
         return [(conds, e2, None)]
@@ -1792,8 +1819,47 @@ def _load(t):
     return n
 
 
+def _eq_const(c: "Cond"):
+    """(truth, lhs-key, constant-key) for an opaque condition `lhs == <literal / enum constant>`, else None."""
+    if c.op in ("true", "false") and isinstance(c.x, tuple) and len(c.x) == 4 and c.x[0] == "cmp" and c.x[1] == "Eq":
+        l, r = c.x[2], c.x[3]
+        for a, b in ((l, r), (r, l)):
+            if isinstance(b, tuple) and len(b) == 2 and b[0] in ("obj", "lit") and not (isinstance(a, tuple) and len(a) == 2 and a[0] in ("obj", "lit")):
+                if b[0] == "obj" and not (isinstance(b[1], str) and (b[1][:1] in "'\"" or b[1] in ("None", "True", "False") or b[1][:1].isdigit())):
+                    continue
+                return c.op == "true", repr(a), repr(b)
+    return None
+
+
+def _simplify_conds(conds: frozenset):
+    """Drop guards implied by other guards of the same conjunction (x < 0 implies x <= 0; v == A implies v != B for
+    distinct constants A, B).  Returns None when the conjunction is contradictory."""
+    if _contradict(conds):
+        return None
+    out = set(conds)
+    eqs = {}
+    for c in conds:
+        e = _eq_const(c)
+        if e and e[0]:
+            eqs[e[1]] = e[2]
+    for c in conds:
+        if c.op == "<=" and isinstance(c.x, Rat) and Cond("<", c.x) in conds:
+            out.discard(c)
+        e = _eq_const(c)
+        if e and not e[0] and e[1] in eqs and eqs[e[1]] != e[2]:
+            out.discard(c)
+    return frozenset(out)
+
+
 def _contradict(conds: frozenset) -> bool:
-    """Cheap syntactic contradiction: c and not-c both present; x<0 with -x<0 / -x<=0 ... handled via negate()."""
+    """Cheap syntactic contradiction: c and not-c both present; x<0 with -x<0 / -x<=0 ... handled via negate();
+    v == A together with v == B for distinct constants."""
+    eqs = {}
+    for c in conds:
+        e = _eq_const(c)
+        if e and e[0]:
+            if eqs.setdefault(e[1], e[2]) != e[2]:
+                return True
     for c in conds:
         try:
             if c.negate() in conds:
@@ -1882,6 +1948,45 @@ def canon_paths(paths):
     return items
 
 
+def _merge_rows(rows):
+    """[(guards, payload)] -> the same case distinction with rows of equal payload merged whenever their guards differ in
+    exactly one complementary condition (repeated to a fixpoint), so that the shape of the branching does not matter."""
+    items = []
+    for c, p in rows:
+        c = _simplify_conds(frozenset(c))
+        if c is not None:
+            items.append((c, p))
+    changed = True
+    while changed:
+        changed = False
+        n = len(items)
+        for i in range(n):
+            for j in range(i + 1, n):
+                ci, pi = items[i]
+                cj, pj = items[j]
+                if pi != pj:
+                    continue
+                if ci == cj:
+                    items.pop(j)
+                    changed = True
+                    break
+                d1, d2 = ci - cj, cj - ci
+                if len(d1) == 1 and len(d2) == 1:
+                    a, = d1
+                    b, = d2
+                    try:
+                        if a.negate() == b:
+                            items[i] = (ci & cj, pi)
+                            items.pop(j)
+                            changed = True
+                            break
+                    except Unreadable:
+                        pass
+            if changed:
+                break
+    return items
+
+
 def _val_eq(a, b) -> bool:
     if isinstance(a, Rat) and isinstance(b, Rat):
         return a == b
@@ -1910,54 +2015,89 @@ def _self_only_key(k) -> bool:
 
 
 def simplify_under(v, conds):
-    """Rewrite abs / min / max atoms whose case is decided by the guards `conds` (so that `a-b if a>b else b-a`,
-    written as an if/else statement on one side and as abs() on the other, compare equal)."""
+    """Rewrite abs / min / max atoms - at any nesting depth, also inside floor/int/call atoms - whose case is decided by
+    the guards `conds` (so that `a-b if a>b else b-a`, written as an if/else statement on one side and as abs() on the
+    other, compare equal)."""
     if not isinstance(v, Rat):
         if isinstance(v, Tup):
             return Tup([simplify_under(x, conds) for x in v.items])
         if isinstance(v, Obj):
             return Obj(v.cls, {k: simplify_under(x, conds) for k, x in v.fields.items()})
         return v
-    atoms = [a for a in v.atoms() if isinstance(a, tuple) and a and a[0] in ("abs", "min", "max")]
-    if not atoms:
+    from .norm import all_atoms_deep
+    if not any(isinstance(a, tuple) and a and a[0] in ("abs", "min", "max") for a in all_atoms_deep(v)):
         return v
-    known = {}
+    known = set()
     for c in conds:
         if c.op in ("<", "<=") and isinstance(c.x, Rat):
-            known[c.x.key()] = c.op
+            known.add(c.x.key())
+    if not known:
+        return v
 
     def neg_or_zero(x: Rat):  # x <= 0 known ?
         return x.key() in known
 
-    sub = {}
-    for a in atoms:
-        if a[0] == "abs":
-            x = a[1]
-            if neg_or_zero(-x):      # -x <= 0  => x >= 0
-                sub[a] = x
-            elif neg_or_zero(x):     # x <= 0
-                sub[a] = -x
-        else:
-            items = list(a[1])
-            if len(items) == 2:
-                p, q = items
-                if neg_or_zero(p - q):      # p <= q
-                    sub[a] = p if a[0] == "min" else q
-                elif neg_or_zero(q - p):
-                    sub[a] = q if a[0] == "min" else p
-    if not sub:
-        return v
+    memo = {}
+
+    def s_any(x):
+        if isinstance(x, Rat):
+            return s_rat(x)
+        if isinstance(x, frozenset):
+            return frozenset(s_any(y) for y in x)
+        if isinstance(x, tuple):
+            return tuple(s_any(y) for y in x)
+        return x
+
+    def s_atom(a) -> Rat:
+        if a in memo:
+            return memo[a]
+        out = None
+        if isinstance(a, tuple) and a and isinstance(a[0], str):
+            if a[0] == "abs" and len(a) == 2 and isinstance(a[1], Rat):
+                x = s_rat(a[1])
+                if neg_or_zero(-x):      # -x <= 0  => x >= 0
+                    out = x
+                elif neg_or_zero(x):     # x <= 0
+                    out = -x
+                else:
+                    out = abs_of(x)
+            elif a[0] in ("min", "max") and len(a) == 2 and isinstance(a[1], frozenset) and all(isinstance(i, Rat) for i in a[1]):
+                items = sorted((s_rat(i) for i in a[1]), key=repr)
+                changed = True
+                while changed and len(items) > 1:
+                    changed = False
+                    for i, p in enumerate(items):
+                        for j, q in enumerate(items):
+                            if i != j and neg_or_zero(p - q):      # p <= q: q never the min, p never the max
+                                items.pop(j if a[0] == "min" else i)
+                                changed = True
+                                break
+                        if changed:
+                            break
+                out = minmax(a[0], items)
+            else:
+                na = s_any(a)
+                out = Rat.atom(na)
+        if out is None:
+            out = Rat.atom(a)
+        memo[a] = out
+        return out
 
     def sp(poly):
         out = Rat.const(0)
         for m, c in poly.t.items():
             term = Rat.const(c)
             for at, e in m:
-                base = sub[at] if at in sub else Rat.atom(at)
-                term = term * (base ** e)
+                term = term * (s_atom(at) ** e)
             out = out + term
         return out
-    return sp(v.n) / sp(v.d)
+
+    def s_rat(r: Rat) -> Rat:
+        if not any(isinstance(a, tuple) for a in r.atoms()):
+            return r
+        return sp(r.n) / sp(r.d)
+
+    return s_rat(v)
 
 
 def compatible(c1: frozenset, c2: frozenset) -> bool:
